@@ -166,7 +166,7 @@ func runC03(c *Ctx) {
 		rs := nonMatchingReturns(c, fn, 0, "nil")
 		c.Exists(fn, "non-nil result is filtered", rs, 1)
 		for _, r := range rs {
-			c.Report(fn, "node signs filtered by the expelled node", c.InstrPos(r), P("util.FilterSlice(op.NodeSigns(), func:isaac.(SuffrageExpelOperation).NodeSigns$1)").Match(c.D(RetVal(r.(*ssa.Return), 0))), c.D(RetVal(r.(*ssa.Return), 0)))
+			c.Report(fn, "node signs filtered by the expelled node", c.InstrPos(r), P("util.FilterSlice(op.BaseNodeOperation.NodeSigns(), func:isaac.(SuffrageExpelOperation).NodeSigns$1)").Match(c.D(RetVal(r.(*ssa.Return), 0))), c.D(RetVal(r.(*ssa.Return), 0)))
 		}
 		if cl := c.Need("isaac.(SuffrageExpelOperation).NodeSigns$1"); cl != nil {
 			c.Exists(cl, "filter drops the expelled node's own sign", c.ReturnsD(cl, 0, "!op.Fact().Node().Equal(i.Node())"), 1)
